@@ -323,11 +323,15 @@ func c14FPValue(r *Rand) string {
 
 func c14ExtractGen(r *Rand, _ int) c14Desc {
 	var d c14Desc
-	nm := r.Intn(5)
+	nm := r.Range(1, 4)
+	if r.Chance(1, 15) {
+		nm = 0
+	}
 	mids := []string{"0", "1", "2", "audio", "data"}
 	group := Pick(r, []string{"", "", "BUNDLE 0 1 2", "BUNDLE 1 0", "BUNDLE 0", "BUNDLE", "BUNDLE  0", "LS 0 1",
 		"BUNDLE audio data", "xBUNDLEx 2", "BUNDLE 7"})
-	placement := r.Intn(6) // 0 session, 1 media(all), 2 both, 3 conflicting media, 4 absent, 5 some media
+	// 0 session, 1 media(all), 2 both, 3 conflicting media, 4 absent, 5 some media
+	placement := Pick(r, []int{0, 0, 0, 1, 1, 1, 2, 2, 3, 4, 5, 5})
 	same := c14FPValue(r)
 	d.Session = append(d.Session, c14Attr{"ice-lite", ""})
 	if group != "" {
